@@ -140,6 +140,46 @@ def reqJudge (f : List String) (out : String) : String :=
     | none => "bad:unparsable:" ++ out
     | some o => verdictReq specHop (mkRepl c.r.host c.r.remoteAddr) c.u c.r o
 
+/-
+  c04.retry  (the 16 fields of c04.req) target2Parts target2String
+     two backends (policy first), the first one fails before reading the body, the second answers
+     out = <attempt 1 as in c04.req> TAB | TAB <attempt 2>
+-/
+def parseRetryCase (f : List String) : Option (ReqCase × Upstream) :=
+  if f.length == 18 then do
+    let c ← parseReq (f.take 16)
+    let t2 ← parseURLParts (f.getD 16 "")
+    pure (c, { c.u with target := t2 })
+  else none
+
+def retryModel (f : List String) : String :=
+  match parseRetryCase f with
+  | none => "bad-case"
+  | some (c, u2) =>
+    if !nonInterfering c.u.upRules then "bad-case:interfering rules"
+    else
+      let (o1, o2) := forwardRetry hopList (mkRepl c.r.host c.r.remoteAddr) c.u u2 c.r
+      showReq c o1 ++ "\t|\t" ++ showReq c o2
+
+def splitAtBar : List String → List String → List String × List String
+  | [], acc => (acc.reverse, [])
+  | "|" :: rest, acc => (acc.reverse, rest)
+  | x :: rest, acc => splitAtBar rest (x :: acc)
+
+def retryJudge (f : List String) (out : String) : String :=
+  match parseRetryCase f with
+  | none => "bad:unparsable:case"
+  | some (c, u2) =>
+    let (a1, a2) := splitAtBar (out.splitOn "\t") []
+    match parseObservedReq c ("\t".intercalate a1), parseObservedReq c ("\t".intercalate a2) with
+    | some o1, some o2 =>
+      let v1 := verdictReq specHop (mkRepl c.r.host c.r.remoteAddr) c.u c.r o1
+      if v1 != "ok" then v1
+      else
+        let v2 := verdictReq specHop (mkRepl c.r.host c.r.remoteAddr) u2 c.r o2
+        if v2 != "ok" then v2 ++ " (second attempt)" else "ok"
+    | _, _ => "bad:unparsable:" ++ out
+
 structure RespCase where
   res : Response
   pre : Hdr
@@ -188,6 +228,7 @@ def shpModel : List String → String
 def streams : List Driver.Stream := [
   { name := "c04.req", model := reqModel, judge := reqJudge },
   { name := "c04.resp", model := respModel, judge := respJudge },
+  { name := "c04.retry", model := retryModel, judge := retryJudge },
   { name := "c04.canon", model := canonModel, judge := fun _ _ => "ok" },
   { name := "c04.shp", model := shpModel, judge := fun _ _ => "ok" }
 ]
